@@ -86,6 +86,39 @@ def _docless(body: List[ast.stmt]) -> List[ast.stmt]:
     return body
 
 
+def _alpha_lambdas(body: List[ast.stmt], pre: str) -> List[ast.stmt]:
+    """rename the parameters of every lambda in `body` to fresh names (innermost first), so
+    that renaming the locals of an inlined helper never captures or frees a lambda parameter"""
+    k = [0]
+
+    def rename(lam: ast.Lambda) -> None:
+        la = lam.args
+        mp = {}
+        for a in la.posonlyargs + la.args + la.kwonlyargs:
+            k[0] += 1
+            mp[a.arg] = f'{pre}_{k[0]}_{a.arg}'
+            a.arg = mp[a.arg]
+
+        def sub(node: ast.AST, live: Dict[str, str]) -> None:
+            if isinstance(node, ast.Lambda):
+                inner = node.args
+                shadow = {a.arg for a in inner.posonlyargs + inner.args + inner.kwonlyargs}
+                for d in inner.defaults + [d for d in inner.kw_defaults if d is not None]:
+                    sub(d, live)
+                sub(node.body, {a: b for a, b in live.items() if a not in shadow})
+                return
+            if isinstance(node, ast.Name) and node.id in live:
+                node.id = live[node.id]
+            for c in ast.iter_child_nodes(node):
+                sub(c, live)
+        sub(lam.body, mp)
+
+    lambdas = [n for s in body for n in ast.walk(s) if isinstance(n, ast.Lambda)]
+    for lam in lambdas:          # ast.walk is breadth-first: outer lambdas are renamed first,
+        rename(lam)              # inner ones afterwards see already-renamed free names
+    return body
+
+
 class Inliner:
     def __init__(self, index: RepoIndex, func: Func, exclude: Optional[Set[str]] = None,
                  depth: int = 2, methods: bool = False, cross: Optional[Set[str]] = None):
@@ -138,8 +171,14 @@ class Inliner:
                 any(k.arg is None for k in call.keywords):
             return None
         for n in ast.walk(fn):
-            if isinstance(n, (ast.Yield, ast.YieldFrom, ast.Lambda, ast.Global, ast.Nonlocal)):
+            if isinstance(n, (ast.Yield, ast.YieldFrom, ast.Global, ast.Nonlocal)):
                 return None
+            if isinstance(n, ast.Lambda):
+                # a lambda is carried along unless its parameters clash with a local that
+                # the inliner renames
+                la = n.args
+                if la.vararg or la.kwarg:
+                    return None
             if isinstance(n, (ast.FunctionDef, ast.AsyncFunctionDef)) and n is not fn:
                 return None
             if isinstance(n, ast.Call) and isinstance(n.func, ast.Name) and n.func.id == name:
@@ -199,7 +238,8 @@ class Inliner:
             binds.append(ast.copy_location(
                 ast.Assign([ast.Name(mp[p], ast.Store())], copy.deepcopy(v)), at))
         try:
-            body = _structured(copy.deepcopy(_docless(fn.body)), '__RESULT__')
+            body = _structured(_alpha_lambdas(copy.deepcopy(_docless(fn.body)),
+                                              f'_l{self.counter}'), '__RESULT__')
         except NotInlinable:
             return None
         ren = _Rename(dict(mp, __RESULT__=result))
